@@ -3,3 +3,7 @@ import TephraProps.C09
 #print axioms Tephra.Props.C09_sibling_context_err
 #print axioms Tephra.Props.C09_unfiltered_restores
 #print axioms Tephra.Props.C09_set_filter_installs
+#print axioms Tephra.Props.C09_filter_frame
+#print axioms Tephra.Props.C09_context_by_value
+#print axioms Tephra.Props.C09_sibling_context_center
+#print axioms Tephra.Props.C09_world_frame
